@@ -20,36 +20,44 @@ Proof. destruct msg as [|a [|b [|c r]]]; reflexivity. Qed.
 Lemma udp_adjust_len m r :
   0 <= m <= 65535 -> 1 <= r <= 65535 -> fst (udp_adjust m r) <= limit m.
 Proof.
-  unfold udp_adjust, limit, maxUDPSize, maxDNS0Size; intros Hm Hr.
+  unfold udp_adjust, udp_adjust0, limit, maxUDPSize, maxDNS0Size, maxUDPPayload; intros Hm Hr.
   destruct (r >? 512) eqn:E1, (r >? m) eqn:E2, (r >? 4094) eqn:E3, (m >? 512) eqn:E4;
-    cbn [andb orb fst]; try rewrite E2; cbn [fst]; lia.
+    cbn [andb orb]; try rewrite E2;
+    repeat match goal with |- context [if ?x >? 65507 then _ else _] => destruct (x >? 65507) eqn:? end;
+    cbn [fst snd]; lia.
 Qed.
 
 Lemma udp_adjust_tc m r :
   0 <= m <= 65535 -> 1 <= r <= 65535 ->
   fst (udp_adjust m r) < r -> snd (udp_adjust m r) = true.
 Proof.
-  unfold udp_adjust, maxUDPSize, maxDNS0Size; intros Hm Hr.
+  unfold udp_adjust, udp_adjust0, limit, maxUDPSize, maxDNS0Size, maxUDPPayload; intros Hm Hr.
   destruct (r >? 512) eqn:E1, (r >? m) eqn:E2, (r >? 4094) eqn:E3, (m >? 512) eqn:E4;
-    cbn [andb orb fst snd]; try rewrite E2; cbn [fst snd]; lia.
+    cbn [andb orb]; try rewrite E2;
+    repeat match goal with |- context [if ?x >? 65507 then _ else _] => destruct (x >? 65507) eqn:? end;
+    cbn [fst snd]; lia.
 Qed.
 
 Lemma udp_adjust_full m r :
   0 <= m <= 65535 -> 1 <= r <= 65535 ->
   r <= limit m -> fst (udp_adjust m r) = r.
 Proof.
-  unfold udp_adjust, limit, maxUDPSize, maxDNS0Size; intros Hm Hr.
+  unfold udp_adjust, udp_adjust0, limit, maxUDPSize, maxDNS0Size, maxUDPPayload; intros Hm Hr.
   destruct (r >? 512) eqn:E1, (r >? m) eqn:E2, (r >? 4094) eqn:E3, (m >? 512) eqn:E4;
-    cbn [andb orb fst]; try rewrite E2; cbn [fst]; lia.
+    cbn [andb orb]; try rewrite E2;
+    repeat match goal with |- context [if ?x >? 65507 then _ else _] => destruct (x >? 65507) eqn:? end;
+    cbn [fst snd]; lia.
 Qed.
 
 Lemma udp_adjust_range m r :
   0 <= m <= 65535 -> 1 <= r <= 65535 ->
   1 <= fst (udp_adjust m r) <= r.
 Proof.
-  unfold udp_adjust, maxUDPSize, maxDNS0Size; intros Hm Hr.
+  unfold udp_adjust, udp_adjust0, limit, maxUDPSize, maxDNS0Size, maxUDPPayload; intros Hm Hr.
   destruct (r >? 512) eqn:E1, (r >? m) eqn:E2, (r >? 4094) eqn:E3, (m >? 512) eqn:E4;
-    cbn [andb orb fst]; try rewrite E2; cbn [fst]; lia.
+    cbn [andb orb]; try rewrite E2;
+    repeat match goal with |- context [if ?x >? 65507 then _ else _] => destruct (x >? 65507) eqn:? end;
+    cbn [fst snd]; lia.
 Qed.
 
 (* the datagram actually written *)
@@ -109,9 +117,11 @@ Proof.
   unfold udp_reply.
   destruct (udp_adjust m (len msg)) as [n tc] eqn:E; cbn [fst snd] in *. subst tc.
   assert (3 <= n).
-  { unfold udp_adjust, maxUDPSize, maxDNS0Size in E.
+  { unfold udp_adjust, udp_adjust0, maxUDPSize, maxDNS0Size, maxUDPPayload in E.
     destruct (len msg >? 512) eqn:E1, (len msg >? m) eqn:E2, (len msg >? 4094) eqn:E3, (m >? 512) eqn:E4;
-      cbn [andb orb] in E; try rewrite E2 in E; inversion E; lia. }
+      cbn [andb orb] in E; try rewrite E2 in E;
+      repeat match type of E with context [if ?x >? 65507 then _ else _] => destruct (x >? 65507) eqn:? end;
+      inversion E; lia. }
   rewrite tc_bit_takez by assumption. apply tc_bit_set_tc. lia.
 Qed.
 
@@ -172,9 +182,11 @@ Proof.
   { intros Htc0. unfold udp_reply.
     destruct (udp_adjust m (len msg)) as [n tc] eqn:E; cbn [fst snd] in *.
     assert (3 <= n).
-    { unfold udp_adjust, maxUDPSize, maxDNS0Size in E.
+    { unfold udp_adjust, udp_adjust0, maxUDPSize, maxDNS0Size, maxUDPPayload in E.
       destruct (len msg >? 512) eqn:E1, (len msg >? m) eqn:E2, (len msg >? 4094) eqn:E3, (m >? 512) eqn:E4;
-        cbn [andb orb] in E; try rewrite E2 in E; inversion E; lia. }
+        cbn [andb orb] in E; try rewrite E2 in E;
+        repeat match type of E with context [if ?x >? 65507 then _ else _] => destruct (x >? 65507) eqn:? end;
+        inversion E; lia. }
     rewrite tc_bit_takez by assumption.
     destruct tc; [apply tc_bit_set_tc; lia | exact Htc0]. }
   destruct (fst (udp_adjust m (len msg)) <? len msg) eqn:E1.
